@@ -30,6 +30,9 @@ def gen(tier, rng):
     yield nodegen.close_script(rng, "close-switch", mode="switch", dev="tap")
     # "delivered … to every peer selected for it": selection by nested claims of every family, down to the default routes 0.0.0.0/0 and fd00::/8
     yield nodegen.families_script(rng, "families", 8 if thorough else 4)
+    yield nodegen.announce_script(rng, "announce-withdraw", 12)      # claims grow, shrink and are withdrawn altogether by later announcements
+    for sw in (False, True):
+        yield nodegen.nested_claims_script(rng, "nested-claims-%d" % sw, sw)
     for mode, dev in combos:
         for n in ([2, 3, 4, 5] if thorough else [3]):
             for _ in range(3 if thorough else 1):
